@@ -254,6 +254,16 @@ Proof.
     rewrite app_assoc. split; reflexivity.
 Qed.
 
+(* an over-long line after a complete block: the scanner stops with the explicit error after delivering exactly the block's tokens *)
+Lemma toolong_after_block A l B e : block_ok A -> ~ In nl l -> (max_token <= len_N l)%N ->
+  snd (scan (A ++ l ++ nl :: B) e) = STooLong /\ fst (scan (A ++ l ++ nl :: B) e) = fst (scan A REof).
+Proof.
+  intros HA Hl Hlen. destruct (tokens_app A (l ++ nl :: B) e HA) as [Ef Es]. rewrite Ef, Es.
+  rewrite (scan_unfold (l ++ nl :: B)). rewrite split_lines_snoc_nl. rewrite (split_lines_nonl l Hl). cbn [fst snd app scan_terminated].
+  assert (Hlt : (max_token <? len_N l + 1)%N = true) by (apply N.ltb_lt; lia).
+  rewrite Hlt. cbn [fst snd]. rewrite app_nil_r. split; reflexivity.
+Qed.
+
 Section Hom.
 Variable tb : tables.
 Variable cs : consts.
